@@ -177,7 +177,7 @@ def guard_texts(gs):
 
 def check_pack_regexp(ctx, cname, ci, fi):
     repo = ctx.repo
-    w = repo.walker(inline_depth=0, max_paths=ctx.max_paths)
+    w = repo.walker(inline_depth=(1 if cname == "Bits" else 0), max_paths=ctx.max_paths)
     # what only the constructor computes (a marker's pattern prepared once) reads as its definition
     w.const_heap = dict(repo.ctor_consts(ci))
     paths = w.paths(fi.node, cls=ci)
@@ -208,6 +208,8 @@ def check_pack_regexp(ctx, cname, ci, fi):
                     ctx.violation('R12-escape-discipline', fi, st, why + ': bytes that are regex metacharacters change the meaning of the pattern and matching packets are rejected', e.lineno, clause='a')
                 else:
                     ctx.undecided('R12-escape-discipline', fi, st, why, e.lineno, clause='a')
+            elif chunk is not None and any(isinstance(x, ast.Call) and (call_name(x) or '').split('.')[-1] == 'escape' for x in ast.walk(chunk)):
+                ctx.violation('R12-escape-discipline', fi, st, 'an already escaped text is inserted as a literal: FragmentsOfRegexps.insert escapes literals, so the byte is escaped twice (a metacharacter such as "(" becomes the pattern for a backslash followed by "(") and matching packets are rejected', e.lineno, clause='a', witness=True)
             else:
                 ctx.holds('R12-escape-discipline', fi, st, 'inserted as a literal: escaped by FragmentsOfRegexps.insert', e.lineno, clause='a')
         # ---- (c) sinks
